@@ -29,6 +29,22 @@ class RefRaise(Exception):
         self.desc = desc
 
 
+def effective_trans(prog):
+    """The declared transitions plus, for every ``X.from_.any(...)`` declaration (``prog["any"]``), one
+    copy per non-final state.  The library makes those copies when the event attribute is processed,
+    i.e. after every explicit ``a.to(b)`` of the class body (states are declared first in rendered
+    programs), in declaration order of the states: so they come last in each state's list."""
+    out = list(prog["trans"])
+    nonfinal = [s["id"] for s in prog["states"] if not s.get("final")]
+    for ai, a in enumerate(prog.get("any", [])):
+        for sid in nonfinal:
+            t = {k: v for k, v in a.items() if k != "alias"}
+            t["src"] = sid
+            t["any"] = ai
+            out.append(t)
+    return out
+
+
 class RefProgram:
     def __init__(self, prog):
         self.prog = prog
@@ -41,7 +57,8 @@ class RefProgram:
         self.state_by_id = {s["id"]: s for s in self.states}
         self.initial = next(s["id"] for s in self.states if s.get("initial"))
         self.trans_from = {s: [] for s in self.sid}
-        for i, t in enumerate(prog["trans"]):
+        self.trans = effective_trans(prog)
+        for i, t in enumerate(self.trans):
             t = dict(t)
             t["idx"] = i
             self.trans_from[t["src"]].append(t)
@@ -58,7 +75,7 @@ class RefProgram:
         self.events = ev
         # names some spec refers to: only those are resolved into callbacks by the library
         ref = set()
-        for t in prog["trans"]:
+        for t in self.trans:
             for g in ("validators", "cond", "unless", "before", "on", "after"):
                 for expr in t.get(g, []):
                     ref.update(_expr_names(expr))
